@@ -162,4 +162,33 @@ example : imageFast 2 (some 5) 0 [⟨0, 4, [1, 2, 3, 4], false, true⟩, ⟨4, 4
 example : lastByteAddr [⟨0, 4, [1, 2, 3, 4], false, true⟩, ⟨9, 2, [5, 6], true, true⟩, ⟨4, 4, [5, 6, 7, 8], false, true⟩] = some 7 := by
   decide +kernel
 
+/-! ## windows of one program -/
+
+/-- what a program emits does not depend on the window or the fill value asked for -/
+theorem emitted_window_independent (cfg : Cfg) (files : List (List Stmt)) (s s' : Int) (e e' : Option Int) (fill fill' : Nat)
+    (o o' : Outcome) (h : assemble cfg files s e fill = .ok o) (h' : assemble cfg files s' e' fill' = .ok o') :
+    o.emitted = o'.emitted := by
+  unfold assemble at h h'
+  cases hl : assembleLines cfg files with
+  | error er => rw [hl] at h; cases h
+  | ok r =>
+    obtain ⟨es, L⟩ := r
+    rw [hl] at h h'
+    simp only [bind, Except.bind] at h h'
+    cases ho : overlapCheck none es with
+    | error er => rw [ho] at h; cases h
+    | ok u =>
+      rw [ho] at h h'
+      cases h; cases h'; rfl
+
+/-- the image of a window that lies inside another window is cut out of that one: same bytes at the same addresses
+    (in particular the image of `-s a -e b` is the slice `a..b` of the whole image) -/
+theorem accepted_window_is_cut_of_wider (cfg : Cfg) (files : List (List Stmt)) (fill : Nat) (s e s' e' : Int)
+    (o o' : Outcome) (h : assemble cfg files s (some e) fill = .ok o) (h' : assemble cfg files s' (some e') fill = .ok o')
+    (h1 : s ≤ s') (h2 : s' ≤ e' + 1) (h3 : e' ≤ e) :
+    o'.image = ((o.image).drop (s' - s).toNat).take (e' + 1 - s').toNat := by
+  rw [accepted_image_is_spec cfg files s (some e) fill o h, accepted_image_is_spec cfg files s' (some e') fill o' h',
+    emitted_window_independent cfg files s s' (some e) (some e') fill fill o o' h h']
+  exact imageFast_subwindow o'.emitted (fill % 256) s e s' e' h1 h2 h3
+
 end BV.C03
